@@ -178,6 +178,7 @@ class WCS(object):
         # for finding the inverse trans
         self.lonlat_answer = np.zeros(2, dtype="f8")
         self.xyguess = np.zeros(2, dtype="f8")
+        self.xy_answer = np.zeros(2, dtype="f8")
 
     def __repr__(self):
         import pprint
@@ -545,11 +546,12 @@ class WCS(object):
         x = xy[0]
         y = xy[1]
         lon, lat = self.image2sky(x, y)
-        lonlat = np.zeros(2)
-        lonlat[0] = lon
-        lonlat[1] = lat
-        diff = lonlat - self.lonlat_answer
-        diff[0] = wrap_ra_diff(diff[0])
+        # compare in the undistorted pixel frame: differences of longitude
+        # and latitude are ill-conditioned near the celestial poles
+        xu, yu = self.sky2image(lon, lat, find=False, distort=False)
+        diff = np.zeros(2)
+        diff[0] = xu - self.xy_answer[0]
+        diff[1] = yu - self.xy_answer[1]
         return diff
 
     def _fsolve_xy(self, xyguess, xtol=DEFTOL):
@@ -607,6 +609,8 @@ class WCS(object):
         xyguess[0], xyguess[1] = self.sky2image(
             lon, lat, find=False, distort=False,
         )
+        # the target of the root finder: the undistorted pixel position
+        self.xy_answer[:] = xyguess
         xy = self._fsolve_xy(xyguess, xtol=xtol)
         # print 'using lm'
         # xy = self._lmfind_xy(xyguess)
